@@ -132,11 +132,27 @@ func (vm *VM) Run(program *Program, env interface{}) (out interface{}, err error
 		case OpEqualInt:
 			b := vm.pop()
 			a := vm.pop()
+			if _, ok := a.(int); !ok {
+				vm.push(equal(a, b))
+				break
+			}
+			if _, ok := b.(int); !ok {
+				vm.push(equal(a, b))
+				break
+			}
 			vm.push(a.(int) == b.(int))
 
 		case OpEqualString:
 			b := vm.pop()
 			a := vm.pop()
+			if _, ok := a.(string); !ok {
+				vm.push(equal(a, b))
+				break
+			}
+			if _, ok := b.(string); !ok {
+				vm.push(equal(a, b))
+				break
+			}
 			vm.push(a.(string) == b.(string))
 
 		case OpJump:
